@@ -231,13 +231,19 @@ structure RunFactsX (o : Oracle) (s0 : St) (t0 : Trace) (s : St) (t : Trace) (lo
   win : WinShape s0 s log
   md : MdLog o (deliveredBits t0 s0).length (mdOpen s0) log
   opn : mdOpen s = logOpen (mdOpen s0) log
+  /-- every stream-header event carries the window bits `ensure_initialized` stages for a fresh state -/
+  hdr : ∀ e ∈ log, ∀ b, e = .window b → ∃ sf, IsFresh sf ∧ b = (ensureInitialized sf).carry
 
 theorem RunFactsX.refl (o : Oracle) {s : St} (t : Trace) (h : RunOK s) : RunFactsX o s t s t [] :=
-  ⟨h, by simp [logBits], rfl, trivial, by simp [logReqs], winShape_nil rfl, trivial, rfl⟩
+  ⟨h, by simp [logBits], rfl, trivial, by simp [logReqs], winShape_nil rfl, trivial, rfl, fun _ he => by cases he⟩
 
 theorem RunFactsX.trans {o : Oracle} {s0 s1 s2 : St} {t0 t1 t2 : Trace} {l1 l2 : List Ev}
     (h1 : RunFactsX o s0 t0 s1 t1 l1) (h2 : RunFactsX o s1 t1 s2 t2 l2) : RunFactsX o s0 t0 s2 t2 (l1 ++ l2) := by
-  refine ⟨h2.ok, ?_, ?_, logOK_append h1.lok (by rw [← h1.pos]; exact h2.lok), ?_, winShape_trans h1.win h2.win, ?_, ?_⟩
+  refine ⟨h2.ok, ?_, ?_, logOK_append h1.lok (by rw [← h1.pos]; exact h2.lok), ?_, winShape_trans h1.win h2.win, ?_, ?_,
+    fun e he b hb => by
+      rcases List.mem_append.mp he with h | h
+      · exact h1.hdr e h b hb
+      · exact h2.hdr e h b hb⟩
   · rw [h2.bits, h1.bits, logBits_append, List.append_assoc]
   · rw [h2.pos, h1.pos, logPos_append]
   · rw [h2.reqs, h1.reqs, logReqs_append, List.append_assoc]
@@ -263,7 +269,8 @@ theorem runCall_factsX {o : Oracle} {fuel : Nat} {s s' : St} {t t' : Trace} {c :
       obtain ⟨_, hp, hip, _, hl⟩ := isFresh_fields hf
       obtain ⟨_, hp', hip', _, hl'⟩ := isFresh_fields hf'
       refine ⟨[], runOK_fresh hf', ?_, ?_, trivial, by simp [logReqs],
-        winShape_nil (by rw [isFreshInit hf, isFreshInit hf']), trivial, by rw [mdOpen_fresh hf, mdOpen_fresh hf']; rfl⟩
+        winShape_nil (by rw [isFreshInit hf, isFreshInit hf']), trivial, by rw [mdOpen_fresh hf, mdOpen_fresh hf']; rfl,
+        fun _ he => by cases he⟩
       · simp only [deliveredBits, logBits, List.flatMap_nil, List.append_nil]
         rw [hp, hp']
         unfold St.carry
@@ -274,7 +281,8 @@ theorem runCall_factsX {o : Oracle} {fuel : Nat} {s s' : St} {t t' : Trace} {c :
         rw [hp']; rfl
     · have : setParameter s id v = (s, false) := by simp [setParameter, hI.init]
       rw [this]
-      exact ⟨[], hR, by simp [deliveredBits, logBits], rfl, trivial, by simp [logReqs], winShape_nil rfl, trivial, rfl⟩
+      exact ⟨[], hR, by simp [deliveredBits, logBits], rfl, trivial, by simp [logReqs], winShape_nil rfl, trivial, rfl,
+        fun _ he => by cases he⟩
   | take size =>
     simp only [runCall] at h
     split at h
@@ -296,7 +304,7 @@ theorem runCall_factsX {o : Oracle} {fuel : Nat} {s s' : St} {t t' : Trace} {c :
           rcases hst with h1 | ⟨h1, _, h2⟩
           · unfold mdOpen; rw [h1, hrm]
           · rw [mdOpen_of_not_md (by rw [h2]; simp), mdOpen_of_not_md (by rw [h1]; simp)]
-      refine ⟨[], hR', ?_, hp, trivial, by simp [logReqs], winShape_nil hini, trivial, by rw [hopn]; rfl⟩
+      refine ⟨[], hR', ?_, hp, trivial, by simp [logReqs], winShape_nil hini, trivial, by rw [hopn]; rfl, fun _ he => by cases he⟩
       simp only [deliveredBits, logBits, List.flatMap_nil, List.append_nil]
       exact hb
     · simp at h
@@ -355,7 +363,12 @@ theorem runCall_factsX {o : Oracle} {fuel : Nat} {s s' : St} {t t' : Trace} {c :
         obtain ⟨q1, q2, _⟩ := step_pos hinit
         obtain ⟨g1, g2⟩ := step_md hinit hR.frame (emitted t.delivered s).length (by rw [emitted_length]; omega)
         refine ⟨.window (ensureInitialized s).carry :: log, k1, ?_, ?_, ⟨q2, by rw [← q1]; exact k4⟩, ?_,
-          Or.inr (Or.inl ⟨hini, k8, _, _, rfl, k7⟩), ⟨g1, ?_⟩, ?_⟩
+          Or.inr (Or.inl ⟨hini, k8, _, _, rfl, k7⟩), ⟨g1, ?_⟩, ?_, fun e he b hb => by
+            rcases List.mem_cons.mp he with h1 | h1
+            · subst h1
+              simp only [Ev.window.injEq] at hb
+              exact ⟨s, hf, hb.symm⟩
+            · exact absurd hb (k7 e h1 b)⟩
         · simp only [deliveredBits, Trace.afterStream]
           show emitted (t.delivered ++ io.out) s1 = emitted t.delivered s ++ logBits o (.window (ensureInitialized s).carry :: log)
           rw [k2, hb0]
@@ -370,7 +383,7 @@ theorem runCall_factsX {o : Oracle} {fuel : Nat} {s s' : St} {t t' : Trace} {c :
           rw [this, ← g2]; exact k12
         · rw [k13, g2]; rfl
       · obtain ⟨log, k1, k2, k3, k4, k5, k7, k8, k12, k13⟩ := key s hI hR.frame hw hcs
-        refine ⟨log, k1, ?_, k3, k4, ?_, Or.inr (Or.inr ⟨hI.init, k8, k7⟩), k12, k13⟩
+        refine ⟨log, k1, ?_, k3, k4, ?_, Or.inr (Or.inr ⟨hI.init, k8, k7⟩), k12, k13, fun e he b hb => absurd hb (k7 e he b)⟩
         · simp only [deliveredBits, Trace.afterStream]
           exact k2
         · simp only [Trace.afterStream]
